@@ -81,7 +81,10 @@ Definition check (c : c02case) : N :=
       let fuel := walk_fuel H (HPtr (Some d)) in
       let rk := compute_rk hin in
       let guard_root := fun a => c03_guard_total hin n_in (rank_bound rk) (Nat.max (heap_depth hin) 1) rk (HPtr (Some a)) in
-      if negb (wf_heapb hin n_in && guard_root d && forallb (forallb guard_root) evs) then 1 else
+      let hist_guard := negb (cfg_ok fs) ||
+                        c02_history_guard hin n_in (rank_bound rk) (Nat.max (heap_depth hin) 1) rk
+                                          (infer_inputs hin fs d (concat evs)) fs d evs in
+      if negb (wf_heapb hin n_in && guard_root d && forallb (forallb guard_root) evs && hist_guard) then 1 else
       match all_some (map (reach_of fuel H) versions) with
       | Some ls =>
           if forallb (all_ge n_in) ls && pairwise_disjoint ls then
